@@ -100,6 +100,22 @@ func VerifH_C15_scalar_roundtrip() {
 	verifAssert(rb, "script sees a number")
 	f, _ := v.ToFloat()
 	i, _ := v.ToInteger()
+	{
+		// ToBoolean (9.2) of every numeric kind, Go side and script side
+		truthy := asFloat != 0 && asFloat == asFloat
+		if isUnsigned {
+			truthy = u64 != 0
+		} else if isInt {
+			truthy = asInt != 0
+		}
+		var tb bool
+		var terr error
+		kindB, _ := verifCatch(func() { tb, terr = v.ToBoolean() })
+		verifAssert(kindB == verifNormal && terr == nil && tb == truthy, "ToBoolean of a number of any Go kind")
+		cond, cerr := vm.Run("v ? 1 : 0")
+		cf, _ := cond.ToFloat()
+		verifAssert(cerr == nil && (cf == 1) == truthy, "a number of any Go kind used as a condition")
+	}
 	if isInt && verifParam("tostring", 1) == 1 {
 		// ToString of an integer kind: the sign (an unsigned value never prints a
 		// minus), and Go side and script side agree on the text
